@@ -192,6 +192,20 @@ def mrf_extreme_values(c, kind, N=8, bc='zero'):
     c.eq('logd_likewise', d.logd(x), spec, tol=1e-9)
 
 
+def mrf_batch(c, kind, N=4, bc='zero'):
+    """a matrix of column vectors handed to the log-density of the Laplace / Cauchy field: one value per column, each the log-density of that column
+    (every column judged on its own: no value depends on the other columns)"""
+    n = N; geom = cuqi.geometry.Continuous1D(n); l0 = c.real('loc0'); p = c.real('scale', pos=True)          # (a scalar location: the form with which a matrix of columns is accepted)
+    d = LMRF(l0, p, bc_type=bc, geometry=geom) if kind == 'LMRF' else CMRF(l0, p, bc_type=bc, geometry=geom)
+    if c.sym: shims.symbolize_operators(d)
+    K = 3
+    X = c.vec('X', n * K).reshape(n, K)
+    out = np.asarray(d.logpdf(X))
+    c.holds('one_value_per_column', np.shape(out) == (K,), note=str(np.shape(out)))
+    if np.shape(out) == (K,):
+        for k in range(K): c.eq(f'value[{k}]_is_the_log_density_of_column_{k}', out[k], d.logpdf(X[:, k]))
+
+
 def mrf_rectangular(c, kind):
     """a 2-D geometry that is not square (2 x 8 pixels): the prior is refused, or it is the density of the finite differences on THAT
     grid (sum over rows of 8 and columns of 2) - never the density of a 4 x 4 image with the same number of pixels"""
@@ -276,6 +290,9 @@ def jobs(tier):
             J.append(Job(f'{kind}.logpdf2D:{bc}:N=3x3', lambda c, k=kind, bc=bc: mrf_logpdf(c, k, 3, bc, 1, True), 'Pbox', [f'{mod}:{kind}.logpdf'] + FO))
             if kind == 'GMRF' and bc in ('zero', 'periodic'):      # second-order field on an image: differences along BOTH directions (a non-symmetric image tells them apart)
                 J.append(Job(f'GMRF.logpdf2D:order=2:{bc}:N=3x3', lambda c, bc=bc: mrf_logpdf(c, 'GMRF', 3, bc, 2, True), 'Pbox', [f'{mod}:GMRF.logpdf', 'cuqi.operator._operator:SecondOrderFiniteDifference._create_diff_matrix'] + FO))
+    for kind in ('LMRF', 'CMRF'):
+        for bc in ('zero', 'periodic'):
+            J.append(Job(f'{kind}.logpdf:batch_of_columns:{bc}', lambda c, k=kind, bc=bc: mrf_batch(c, k, 4, bc), 'Pbox', [f'cuqi.distribution._{kind.lower()}:{kind}.logpdf'] + FO))
     for kind in ('GMRF', 'LMRF', 'CMRF'):
         J.append(Job(f'{kind}.logpdf:extreme_values', lambda c, k=kind: mrf_extreme_values(c, k), 'B', [f'cuqi.distribution._{kind.lower()}:{kind}.logpdf'], nnum=3))
     return J
